@@ -5,6 +5,7 @@ import (
 	"regexp"
 	"sort"
 	"strings"
+	"sync"
 
 	"github.com/gookit/rux"
 
@@ -66,6 +67,8 @@ type c02Case struct {
 	Head    bool   `json:"head_requests,omitempty"`        // the history is requested with HEAD (served by the GET route)
 	Redisp  bool   `json:"redispatch,omitempty"`           // the route's handler re-dispatches (HandleContext) to a static and to another dynamic route
 	Enc     bool   `json:"use_encoded_path,omitempty"`     // the router matches the ESCAPED request path (UseEncodedPath): the handlers see the escaped substrings
+	NA      bool   `json:"method_not_allowed_probe_first,omitempty"` // HandleMethodNotAllowed is on and every request is preceded by a DELETE (405) request for the same path
+	GVar    bool   `json:"global_var_defined_late,omitempty"`      // instead of a pattern of the pool: a global variable is defined AFTER its name was used as a plain variable
 	Mut     bool   `json:"handler_edits_params,omitempty"` // the route's handler edits the Params map it was given, after reading it
 	Dump    bool   `json:"dump_routes,omitempty"`          // the router's read-only inspection API (String, Routes, IterateRoutes, NamedRoutes) is called between registration and the requests and again between them
 }
@@ -165,6 +168,7 @@ func init() {
 }
 
 func c02Gen(tier string, emit func(c02Case)) {
+	emit(c02Case{GVar: true})
 	for _, pat := range c02Pool {
 		for _, cc := range []int{0, 2} {
 			emit(c02Case{Pattern: pat, Cache: cc, Redisp: true})
@@ -187,6 +191,12 @@ func c02Gen(tier string, emit func(c02Case)) {
 		for _, cc := range []int{0, 2} {
 			for i := 0; i < len(paths); i += stride * 4 {
 				emit(c02Case{Pattern: pat, Cache: cc, First: paths[i], Head: true})
+			}
+		}
+		// with HandleMethodNotAllowed: a request with a method the route does not allow comes first for every path
+		for _, cc := range []int{1, 2} {
+			for i := 0; i < len(paths); i += stride * 4 {
+				emit(c02Case{Pattern: pat, Cache: cc, First: paths[i], NA: true})
 			}
 		}
 		// UseEncodedPath: what is matched (and captured) is the escaped form of the request path
@@ -241,6 +251,13 @@ func c02Run(c c02Case, st *fw.Stats) []fw.Viol {
 			viols = append(viols, fw.Viol{Sig: sig, Msg: msg})
 		}
 	}
+	if c.GVar {
+		c02GlobalVarMu.Lock()
+		defer c02GlobalVarMu.Unlock()
+		return c02LateGlobalVar(st, add, &viols)
+	}
+	c02GlobalVarMu.RLock()
+	defer c02GlobalVarMu.RUnlock()
 	if c.Redisp {
 		return c02Redispatch(c, st, add, &viols)
 	}
@@ -257,6 +274,9 @@ func c02Run(c c02Case, st *fw.Stats) []fw.Viol {
 	}
 	if c.Enc {
 		opts = append(opts, rux.UseEncodedPath)
+	}
+	if c.NA {
+		opts = append(opts, rux.HandleMethodNotAllowed)
 	}
 	defs := []refmodel.RouteDef{{Path: c.Pattern, Methods: []string{"GET"}}}
 	mainIdx := "0|"
@@ -327,6 +347,9 @@ func c02Run(c c02Case, st *fw.Stats) []fw.Viol {
 			if c.Head && i >= 1 {
 				method = "HEAD"
 			}
+			if c.NA {
+				_, _ = serve(r, "DELETE", p)
+			}
 			if c.Mut {
 				// the editing handler runs BEFORE the lookup below as well (whatever the first lookup of a path leaves
 				// behind must not show in the next one)
@@ -371,6 +394,50 @@ func c02Run(c c02Case, st *fw.Stats) []fw.Viol {
 		st.Sample(map[string]any{"pattern": c.Pattern, "cache": c.Cache, "history_shape": "first,q,first,q for every q", "first": c.First, "some_q": paths[:min(6, len(paths))]})
 	}
 	return viols
+}
+
+// the table of global path variables is process-wide: the case that defines one runs alone
+var c02GlobalVarMu sync.RWMutex
+
+// c02LateGlobalVar: a name is first used as a plain variable (no global definition exists), THEN defined with
+// SetGlobalVar; every route registered afterwards - on the old and on a new router - uses the definition.
+func c02LateGlobalVar(st *fw.Stats, add func(sig, msg string), viols *[]fw.Viol) []fw.Viol {
+	names := []string{"c02gva", "c02gvb"}
+	defer func() {
+		for _, n := range names {
+			delete(rux.GetGlobalVars(), n)
+		}
+	}()
+	var seen string
+	h := func(ctx *rux.Context) { seen = canonParams(ctx.Params) }
+	for i, name := range names {
+		r1 := rux.New()
+		r1.GET("/early/{"+name+"}", h)
+		_, _ = serve(r1, "GET", "/early/may-2024")
+		rux.SetGlobalVar(name, `\d{4}-\d{2}`)
+		routers := map[string]*rux.Router{"the router that used the name before": r1, "a new router": rux.New()}
+		if i == 1 {
+			routers["a new caching router"] = rux.New(rux.CachingWithNum(4))
+		}
+		for which, r := range routers {
+			r.GET("/late/{"+name+"}/x", h)
+			for _, q := range []struct {
+				v    string
+				want bool
+			}{{"2024-05", true}, {"may-2024", false}, {"2024-5", false}, {"20240-55", false}} {
+				st.Evals++
+				st.Nontrivial++
+				seen = "<not run>"
+				resp, pv := serve(r, "GET", "/late/"+q.v+"/x")
+				if pv != nil {
+					add("globalvar:panic", fmt.Sprintf("late global variable %q: request panicked: %v", name, pv))
+				} else if got := resp.Code == 200; got != q.want {
+					add("globalvar:late-definition-ignored", fmt.Sprintf("the name %q was used as a plain variable, then defined with SetGlobalVar(%q, `\\d{4}-\\d{2}`); route /late/{%s}/x registered afterwards on %s: GET /late/%s/x reaches it = %v (params {%s}), the variable's regex admits the value = %v", name, name, name, which, q.v, got, seen, q.want))
+				}
+			}
+		}
+	}
+	return *viols
 }
 
 // c02Inspect uses every read-only inspection entry point of the router
@@ -442,7 +509,7 @@ func c02Redispatch(c c02Case, st *fw.Stats, add func(sig, msg string), viols *[]
 var c02Spec = fw.Spec[c02Case]{
 	ID:    "C02",
 	Level: "model_checking",
-	Rule: "complete product per pattern (22 patterns; a sibling router built from the same option values and holding the pattern with other variable names is served every request first): every ordered pair (p,q) of candidate paths (all value tuples over 12 values substituted at every optional depth, plus perturbations) requested as the history p,q,p,q on routers with cache off / capacity 1 / capacity 2, via Match and ServeHTTP (also with UseEncodedPath, where the escaped path is what is matched and captured, and with a handler that edits the Params it was given); " +
+	Rule: "complete product per pattern (22 patterns; a sibling router built from the same option values and holding the pattern with other variable names is served every request first): every ordered pair (p,q) of candidate paths (all value tuples over 12 values substituted at every optional depth, plus perturbations) requested as the history p,q,p,q on routers with cache off / capacity 1 / capacity 2, via Match and ServeHTTP (also behind a 405 probe for the same path, with a global variable that is defined only after its name was used, with UseEncodedPath, where the escaped path is what is matched and captured, and with a handler that edits the Params it was given); " +
 		"oracle = back-tracking reference matcher (all decompositions); plus every matching path re-dispatched by its handler (HandleContext) to a static, a dynamic and an optional route, whose handlers must see exactly their own parameters; non-trivial = a request whose path matches the dynamic pattern",
 	Assume: []string{"values and patterns are drawn from the stated alphabets", "handlers treat Params as read-only, except in the cases marked handler_edits_params (where the edit must stay private to that request)"},
 	Bounds: func(tier string) map[string]any {
